@@ -9,4 +9,19 @@ TEXT = {
         "level": "Every public BigDec/BigInt/Dec arithmetic, rounding, conversion and encoding method is executed on generated operands (ties, ulps, powers of ten, bound-adjacent, both signs) and each result compared with the exactly rounded value, operand immutability and Mut/non-Mut agreement; held on the operand pairs explored, not for all operands.",
         "note": "Trusted: math/big, the harness's own rounding helpers. Dec (18-decimal) lives in cosmossdk.io/math and is checked through the osmomath alias only. Aliased receivers (x.OpMut(x)) and decode of >1024-bit values are outside the claim.",
     },
+    "C14": {
+        "technique": "runtime monitor: exhaustive/sampled execution of the exported tick/price conversions against a big.Int closed form and the bucket rule",
+        "level": "quick: all ticks around every decade boundary, the range ends and the regime switch plus 3.6M random ticks; thorough: every one of the 6.12e8 ticks of the supported range executed (formula, monotonicity, bounds, price->tick; sqrt->tick round trip on the whole swap-reachable range), bucket rule sampled at 1 tick in 64, rejections sampled.",
+        "note": "Trusted: math/big (integer sqrt), the closed form as documented in the tick spec. The between-ticks clause is sampled, not exhaustive (each bucket holds ~1e10..1e30 representable sqrt prices).",
+    },
+    "C15": {
+        "technique": "runtime monitor: reference-model (exact big.Rat ledger of growth x shares) refinement check after every accumulator operation",
+        "level": "Generated operation sequences on the real accumulator over an in-memory store; after every operation total shares, every record, every claimable amount and the no-effect-on-failure clause are checked against an exact ledger. Held on the sequences explored.",
+        "note": "Trusted: math/big, the harness KV store. Allowance: one 1e-18 ulp per rounded 18-decimal product folded into a position (the statement allows truncation at claim time only up to product rounding). Stale interleaved handles are not generated (handles are documented snapshots).",
+    },
+    "C16": {
+        "technique": "runtime monitor: reference-model (sorted map) differential check of every query + structural walk of the raw store at quiescent points",
+        "level": "Generated histories at fan-outs 3..12, 32, 255; every Get/PrefixSum/SubsetAccumulation/SplitAcc/Total/iteration answer compared with a sorted map and the stored child sums re-derived from the leaves every 8 operations. Histories with an effective Remove are a recorded known finding; everything else must be clean.",
+        "note": "Trusted: the harness KV store and map model. SubsetAccumulation is only queried with start <= end (the API documents an inclusive range).",
+    },
 }
